@@ -383,6 +383,16 @@ func runASTs(c *core.Child, e *envs, m *model.Schema, si int) {
 		"directive @d on FIELD { __typename }",
 	}
 	special = append(special, crossLevelCycles(m)...)
+	// diamonds: few fragments, exponentially many spread paths
+	for _, depth := range []int{12, 30, 60} {
+		var b strings.Builder
+		b.WriteString("{ ...F0 }")
+		for i := 0; i < depth; i++ {
+			fmt.Fprintf(&b, " fragment F%d on %s { ...F%d ...F%d }", i, m.Query, i+1, i+1)
+		}
+		fmt.Fprintf(&b, " fragment F%d on %s { __typename }", depth, m.Query)
+		special = append(special, b.String())
+	}
 	for i := 0; i < n; i++ {
 		id := fmt.Sprintf("s%d/a%d", si, i)
 		if !c.Begin(id) {
@@ -434,6 +444,10 @@ func runASTs(c *core.Child, e *envs, m *model.Schema, si int) {
 			checkResult(c, "Execute", text, res, false)
 		}
 		guarded(c, "printer.Print", size, text, func() { printer.Print(doc) })
+		if i < len(special)*2 || i%4 == 0 {
+			guarded(c, "PlanCache.Get(normalize)", size*2, text, func() { e.ncache.Get(&env.Schema, text, op) })
+			guarded(c, "PlanCache.Get", size*2, text, func() { e.cache.Get(&env.Schema, text, op) })
+		}
 		if i%3 == 0 {
 			ctx, cancel := context.WithCancel(context.Background())
 			var ch chan *graphql.Result
